@@ -82,72 +82,84 @@ func c03Batch(p *Prog, r *Report, rule string) {
 		return
 	}
 	info := fi.Pkg.TypesInfo
+	// the commit is analysed with its same-package helpers spliced in: the rule is about what runs inside the
+	// callback of RunTransaction, wherever the statements are written
+	f := p.FlatInl(fi)
 	var runs []*ast.CallExpr
-	ast.Inspect(fi.Decl.Body, func(x ast.Node) bool {
-		if c, ok := x.(*ast.CallExpr); ok && p.callIs(fi.Pkg, c, kRepoRunTx) {
-			runs = append(runs, c)
+	runNode := -1
+	for _, n := range f.Nodes {
+		if n.Ast == nil {
+			continue
 		}
-		return true
-	})
+		for _, c := range callsIn(n.Ast, false) {
+			if p.callIs(fi.Pkg, c, kRepoRunTx) {
+				runs = append(runs, c)
+				runNode = n.ID
+			}
+		}
+	}
 	if len(runs) != 1 {
 		r.Viol(rule, kUpdateTx+"#single-transaction", p.pos(fi.Decl), fmt.Sprintf("UpdateTx has %d RunTransaction calls: the commit is not one Badger transaction", len(runs)))
 		return
 	}
 	run := runs[0]
-	r.Check(!insideLoop(fi.Decl.Body, run), rule, kUpdateTx+"#single-transaction", p.pos(run), "unique RunTransaction outside every loop", "RunTransaction sits inside a loop: one Badger transaction per key, a crash leaves part of the commit")
-	var lit *ast.FuncLit
-	for _, a := range run.Args {
-		if l, ok := ast.Unparen(a).(*ast.FuncLit); ok {
-			lit = l
-		}
-	}
-	if lit == nil {
-		// accepted idiom: a named method as the callback
-		r.Undecided(rule, kUpdateTx+"#literal", p.pos(run), "RunTransaction's callback is not a function literal")
+	r.Check(!f.ReachableAfter(runNode, setOf([]int{runNode}), nil), rule, kUpdateTx+"#single-transaction", p.pos(run), "unique RunTransaction outside every loop", "RunTransaction sits inside a loop: one Badger transaction per key, a crash leaves part of the commit")
+	cb := p.callbackOf(fi, run)
+	if cb == nil {
+		r.Undecided(rule, kUpdateTx+"#literal", p.pos(run), "RunTransaction's callback is neither a function literal nor a function of the module")
 		return
 	}
-	// every version write inside the literal
+	cf := p.FlatInl(cb)
+	setPred := p.keysPred(kFileRepoSet)
+	// every version write inside the callback
 	n := 0
-	ast.Inspect(fi.Decl.Body, func(x ast.Node) bool {
-		if c, ok := x.(*ast.CallExpr); ok && p.callIs(fi.Pkg, c, kFileRepoSet) {
-			n++
-			inside := c.Pos() >= lit.Body.Pos() && c.End() <= lit.Body.End()
-			r.Check(inside, rule, fmt.Sprintf("%s#write-in-batch/%d", kUpdateTx, n), p.pos(c), "version write inside the RunTransaction literal", "a version record is written outside the commit's Badger transaction: a crash can leave a partial commit")
-		}
-		return true
-	})
-	if n == 0 {
-		r.Viol(rule, kUpdateTx+"#write-in-batch", p.pos(lit), "the commit writes no version record at all")
+	for _, id := range f.NodesMay(setPred) {
+		n++
+		r.Viol(rule, fmt.Sprintf("%s#write-in-batch/outside%d", kUpdateTx, n), p.pos(f.Nodes[id].Ast), "a version record is written outside the commit's Badger transaction: a crash can leave a partial commit")
 	}
-	ctxParam := litParamCtx(info, lit)
+	inside := cf.NodesMay(setPred)
+	for i, id := range inside {
+		r.Hold(rule, fmt.Sprintf("%s#write-in-batch/%d", kUpdateTx, i+1), p.pos(cf.Nodes[id].Ast), "version write inside the RunTransaction callback")
+	}
+	if len(inside) == 0 {
+		r.Viol(rule, kUpdateTx+"#write-in-batch", p.pos(run), "the commit writes no version record at all")
+	}
+	var ctxParam types.Object
+	for _, o := range paramObjs(cb) {
+		if o != nil && strings.HasSuffix(o.Type().String(), "context.Context") {
+			ctxParam = o
+		}
+	}
 	if ctxParam == nil {
-		r.Viol(rule, kUpdateTx+"#literal-ctx", p.pos(lit), "the callback has no context parameter: the Badger transaction cannot reach the repository")
+		r.Viol(rule, kUpdateTx+"#literal-ctx", p.pos(run), "the callback has no context parameter: the Badger transaction cannot reach the repository")
 	} else {
 		m := 0
-		ast.Inspect(lit.Body, func(x ast.Node) bool {
-			c, ok := x.(*ast.CallExpr)
-			if !ok || len(c.Args) == 0 {
-				return true
+		for _, gn := range cf.Nodes {
+			if gn.Ast == nil {
+				continue
 			}
-			tv, ok := info.Types[c.Args[0]]
-			if !ok || !strings.HasSuffix(tv.Type.String(), "context.Context") {
-				return true
-			}
-			keys := p.calleeKeys(fi.Pkg, c)
-			product := false
-			for _, k := range keys {
-				if p.Funcs[k] != nil {
-					product = true
+			for _, c := range callsIn(gn.Ast, false) {
+				if len(c.Args) == 0 {
+					continue
 				}
+				tv, ok := info.Types[c.Args[0]]
+				if !ok || !strings.HasSuffix(tv.Type.String(), "context.Context") {
+					continue
+				}
+				product := false
+				for _, k := range p.calleeKeys(fi.Pkg, c) {
+					if p.Funcs[k] != nil {
+						product = true
+					}
+				}
+				if !product {
+					continue
+				}
+				m++
+				r.Check(cf.CanonObj(objOf(info, c.Args[0])) == ctxParam, rule, fmt.Sprintf("%s#literal-ctx/%d", kUpdateTx, m), p.pos(c), "receives the callback's ctx",
+					"a repository call inside the commit batch receives the outer context: it bypasses the Badger transaction and is applied on its own")
 			}
-			if !product {
-				return true
-			}
-			m++
-			r.Check(objOf(info, c.Args[0]) == ctxParam, rule, fmt.Sprintf("%s#literal-ctx/%d", kUpdateTx, m), p.pos(c), "receives the literal's ctx",
-				"a repository call inside the commit batch receives the outer context: it bypasses the Badger transaction and is applied on its own")
-			return true
-		})
+		}
 	}
 	// C03.b
 	c03CtxAgreement(p, r, strings.Replace(rule, ".a", ".b", 1))
